@@ -60,18 +60,41 @@ def alphabet(wd):
     # arguments: the same header is accepted by default and rejected without the standard include directories
     J.append({"name": "stdint-default", "args": [p("c11_stdint.h")]})
     J.append({"name": "stdint-nostdinc", "args": [p("c11_stdint.h"), "--", "-nostdinc"], "expect_err": True})
+    # collision twins: jobs that re-use the NAMES (records, functions, bit-field unit sizes, wrapper symbols, file paths) of an
+    # earlier job with a different definition or under a different option - anything memoised by name, USR, size or path
+    # across generations in one process shows up in a history that runs both
+    twins = {
+        "c11_c_twin.h": "struct S { char a; };\nstruct Holder { char pre; struct S s; int after; };\nint f(struct S s);\nextern char gv;\n#define M 300\n",
+        "c11_bf2_twin.h": "struct Reg { unsigned long long mode:33; unsigned count:2; };\nstruct R2 { unsigned char lo:4; unsigned char hi:4; };\n",
+        "c11_static_twin.h": "static inline long sq(long x, long y) { return x * y; }\n",
+        "c11_static_big.h": "".join(f"static inline int big_{k}(int x) {{ return x + {k}; }}\n" for k in range(12)),
+        "c11_wasm.h": "int w_f(int); extern int w_v; long w_g(void); extern long w_u; void w_h(void) __attribute__((noreturn));\n",
+    }
+    for n, t in twins.items():
+        with open(os.path.join(wd, n), "w") as f:
+            f.write(t)
+    J.append({"name": "c-twin-same-names", "args": [p("c11_c_twin.h")]})
+    J.append({"name": "bitfields-uchar-namespaces", "args": [p("c11_bf1.h"), "--enable-cxx-namespaces"]})
+    J.append({"name": "bitfields-twin-same-names", "args": [p("c11_bf2_twin.h")]})
+    # three generations that write ONE wrapper path per history (@HIST@ is the same for every position of a history)
+    for nm, hdr in (("static-shared-path", "c11_static.h"), ("static-shared-path-twin", "c11_static_twin.h"), ("static-shared-path-big", "c11_static_big.h")):
+        J.append({"name": nm, "args": [p(hdr), "--wrap-static-fns", "--wrap-static-fns-path", p("wrapshared_@HIST@"), "--experimental"],
+                  "side_files": [p("wrapshared_@HIST@.c")], "keep_side": True})
+    J.append({"name": "merge-wasm-attrs", "args": [p("c11_wasm.h"), "--merge-extern-blocks", "--wasm-import-module-name", "env"]})
     for j in J:
         j["callbacks"] = {"log": True}
     return J
 
 
 def slot(job, tag):
-    """Give each concurrently running instance of a job its own side-file names."""
+    """Give each concurrently running instance of a job its own side-file names. @SLOT@ is private to one generation,
+    @HIST@ (the part of the tag after 'x') is shared by the generations of one history / schedule."""
+    shared = mark("x" + tag.split("x", 1)[1]) if "x" in tag else mark(tag)
     tag = mark(tag)
     j = dict(job)
-    j["args"] = [a.replace("@SLOT@", tag) for a in job["args"]]
+    j["args"] = [a.replace("@SLOT@", tag).replace("@HIST@", shared) for a in job["args"]]
     if "side_files" in job:
-        j["side_files"] = [a.replace("@SLOT@", tag) for a in job["side_files"]]
+        j["side_files"] = [a.replace("@SLOT@", tag).replace("@HIST@", shared) for a in job["side_files"]]
     return j
 
 
@@ -81,12 +104,14 @@ def mark(tag):
 
 def observe(out, tag):
     """Everything the property calls output, normalised for the slot name."""
+    shared = mark("x" + tag.split("x", 1)[1]) if "x" in tag else mark(tag)
     tag = mark(tag)
     if out.get("status") != "ok":
         return ("status", out.get("status"), out.get("err"), out.get("panic"))
-    side = tuple(sorted((k.replace(tag, "@"), v.replace(tag, "@")) for k, v in (out.get("side") or {}).items()))
-    cb = tuple(out.get("cb_log") or [])
-    return (out["text"].replace(tag, "@"), side, cb)
+    norm = lambda v: v.replace(tag, "@").replace(shared, "@")
+    side = tuple(sorted((norm(k), norm(v)) for k, v in (out.get("side") or {}).items()))
+    cb = tuple(norm(x) if isinstance(x, str) else x for x in (out.get("cb_log") or []))
+    return (norm(out["text"]), side, cb)
 
 
 def new_check(tier):
@@ -102,14 +127,14 @@ def run(ck, only=None):
     J = alphabet(wd)
     names = [j["name"] for j in J]
     # reference: each job alone in a fresh process
-    ref_jobs = [dict(slot(j, "ref"), id=f"ref|{j['name']}", mode="history", jobs=[slot(j, "ref")], fresh=True) for j in J]
+    ref_jobs = [dict(slot(j, f"ref{k}"), id=f"ref|{j['name']}", mode="history", jobs=[slot(j, f"ref{k}")], fresh=True) for k, j in enumerate(J)]
     res = common.run_jobs(ref_jobs, wd, timeout=60)
     ref = {}
-    for j in J:
+    for k, j in enumerate(J):
         r = res[f"ref|{j['name']}"]
         want = "err" if j.get("expect_err") else "ok"
         common.guard(r["status"] == "ok" and r["outs"][0].get("status") == want, f"C11 reference generation of {j['name']} is not {want}: {str(r)[:300]}")
-        ref[j["name"]] = observe(r["outs"][0], "ref")
+        ref[j["name"]] = observe(r["outs"][0], f"ref{k}")
     common.guard(len(set(ref.values())) == len(J), "C11 vacuity: two alphabet jobs have identical outputs")
     states = transitions = 0
 
@@ -121,38 +146,42 @@ def run(ck, only=None):
             hist += list(itertools.product(range(len(J)), repeat=n))
         if only:
             hist = [tuple(only["seq"])]
+        # every history twice: all generations on one thread, and each generation on a thread of its own (length 2 only)
+        runs = [(hn, h, False) for hn, h in enumerate(hist)] + [(len(hist) + hn, h, True) for hn, h in enumerate(hist) if len(h) == 2]
+        if only:
+            runs = [(0, tuple(only["seq"]), bool(only.get("threads")))]
         jobs = []
-        for hn, h in enumerate(hist):
+        for hn, h, thr in runs:
             jj = [slot(J[i], f"h{k}x{hn}") for k, i in enumerate(h)]
-            jobs.append({"id": "hist|" + ",".join(map(str, h)), "mode": "history", "jobs": jj, "fresh": True, "timeout": 120})
+            jobs.append({"id": f"hist|{int(thr)}|" + ",".join(map(str, h)), "mode": "history", "jobs": jj, "fresh": True, "timeout": 120, "thread_per_generation": thr})
         res = common.run_jobs(jobs, wd, timeout=120)
-        for hn, h in enumerate(hist):
-            r = res["hist|" + ",".join(map(str, h))]
+        for hn, h, thr in runs:
+            r = res[f"hist|{int(thr)}|" + ",".join(map(str, h))]
             ck.count()
             states += 1
             transitions += len(h)
-            case = f"history seq={[names[i] for i in h]}"
+            case = f"history seq={[names[i] for i in h]}" + (" thread-per-generation" if thr else "")
             if r["status"] != "ok":
-                ck.violation(case + " " + r["status"], {"kind": "history", "seq": list(h), "why": f"process died: {r}"[:300]})
+                ck.violation(case + " " + r["status"], {"kind": "history", "seq": list(h), "threads": thr, "why": f"process died: {r}"[:300]})
                 continue
             if len(h) > 1:
-                ck.nontriv(("h", h))
+                ck.nontriv(("h", h, thr))
             for k, i in enumerate(h):
                 if observe(r["outs"][k], f"h{k}x{hn}") != ref[names[i]]:
-                    ck.violation(case + f" position={k}", {"kind": "history", "seq": list(h),
+                    ck.violation(case + f" position={k}", {"kind": "history", "seq": list(h), "threads": thr,
                                  "why": f"generation #{k} ({names[i]}) differs from its fresh-process output after {[names[x] for x in h[:k]]}: " + first_diff(observe(r['outs'][k], f'h{k}x{hn}'), ref[names[i]])})
                     break
         ck.sample({"history": [names[i] for i in hist[min(len(hist) - 1, 20)]]})
-        ck.extra["histories"] = len(hist)
+        ck.extra["histories"] = len(runs)
 
     # (a') the same histories (length <= 2) in an environment where the variables bindgen consults are set
     if not only or only.get("kind") == "history-env":
         env = dict(common.ENV)
         env["BINDGEN_EXTRA_CLANG_ARGS"] = "-DC11_EXTRA=1"
         env["TARGET"] = "x86_64-unknown-linux-gnu"
-        refj = [dict(id=f"eref|{j['name']}", mode="history", jobs=[slot(j, "eref")], fresh=True) for j in J]
+        refj = [dict(id=f"eref|{j['name']}", mode="history", jobs=[slot(j, f"eref{k}")], fresh=True) for k, j in enumerate(J)]
         eres = common.run_jobs(refj, wd, timeout=60, env=env)
-        eref = {j["name"]: observe(eres[f"eref|{j['name']}"]["outs"][0], "eref") for j in J}
+        eref = {j["name"]: observe(eres[f"eref|{j['name']}"]["outs"][0], f"eref{k}") for k, j in enumerate(J)}
         hist2 = list(itertools.product(range(len(J)), repeat=2))
         if only:
             hist2 = [tuple(only["seq"])]
@@ -181,12 +210,12 @@ def run(ck, only=None):
         GATES_ALL = ["libclang_loaded", "pre_parse", "parsed", "gen_enter", "allowlisted", "analysed", "codegen_done", "pre_format"]
         plans = []  # (job indices, gates)
         if ck.tier == "thorough":
-            pairs = list(itertools.combinations_with_replacement(range(len(J)), 2))
+            pairs = list(itertools.combinations_with_replacement(range(12), 2)) + [(0, 12), (12, 0), (3, 13), (4, 14), (15, 16), (16, 17), (17, 15), (18, 18)]
             g2 = ["libclang_loaded", "parsed", "allowlisted", "analysed", "codegen_done"]  # 6 segments each: C(12,6) = 924
             plans += [(p, g2) for p in pairs]
             plans += [(t, ["parsed", "analysed"]) for t in [(0, 1, 2), (3, 4, 4), (2, 0, 2), (5, 5, 6), (1, 7, 1), (6, 6, 6)]]  # 3 threads x 3 segments: 1680
         else:
-            pairs = [(0, 2), (3, 4), (2, 2), (1, 1), (5, 5), (6, 6), (1, 0), (4, 7), (8, 9), (9, 8)]
+            pairs = [(0, 2), (3, 4), (2, 2), (1, 1), (5, 5), (6, 6), (1, 0), (4, 7), (8, 9), (9, 8), (0, 12), (3, 13), (4, 14), (18, 18)]
             if ck.seed:
                 pairs = list(dict.fromkeys(pairs[ck.seed % 2::2] + [(0, 2), (3, 4), (8, 9)]))
             g2 = ["libclang_loaded", "parsed", "analysed"]  # 4 segments each: C(8,4) = 70
@@ -224,6 +253,11 @@ def run(ck, only=None):
             if r["status"] != "ok":
                 ck.violation(case + " " + r["status"], dict(det, why=f"process died / hung: {str(r)[:300]}"))
                 continue
+            traces.add((tids_s, gates_s, tuple(r.get("trace") or [])))
+            pk = next((k for k, o in enumerate(r.get("outs") or []) if isinstance(o, dict) and o.get("status") == "panic"), None)
+            if pk is not None:
+                ck.violation(case + f" thread={pk} panic", dict(det, why=f"thread {pk} ({names[tids[pk]]}) panicked: {str(r['outs'][pk].get('panic'))[:200]}"))
+                continue
             if r.get("schedule_error"):
                 raise common.Machinery(f"C11 scheduler: {r['schedule_error']} in {jid} (trace {r.get('trace')})")
             traces.add((tids_s, gates_s, tuple(r["trace"])))
@@ -238,7 +272,8 @@ def run(ck, only=None):
         ck.extra["distinct_gate_traces"] = len(traces)
         if jobs:
             ck.sample({"schedule": jobs[len(jobs) // 2]["id"]})
-            common.guard(len(traces) == len(jobs) or only, f"C11 vacuity: {len(jobs)} schedules produced only {len(traces)} distinct gate traces")
+            sched_viol = any(d.get("kind") == "schedule" for _, d in ck.violations)
+            common.guard(len(traces) == len(jobs) or only or sched_viol, f"C11 vacuity: {len(jobs)} schedules produced only {len(traces)} distinct gate traces")
 
     ck.extra["states"] = states
     ck.extra["transitions"] = transitions
